@@ -138,7 +138,7 @@ def synth(fn, variant, skip_first=0):
     if fname in ("circle", "ellipse"):
         args["center"] = np.array([1.0, -2.0]) * (1.0 if variant == 0 else 3.5)
         if fname == "ellipse":
-            args["phi"], args["axes"] = 0.4, np.array([2.0, 1.0])
+            args["phi"], args["axes"] = 0.4, (np.array([2.0, 1.0]) if variant == 0 else np.array([0.75, 3.0]))      # major length first, then minor length first
     if fname in ("Quaternion.from_angles", "Quaternion.from_rpy") and variant == 1:
         args["angles"] = np.array([3.0, -1.5, 6.0])
     if fname == "QuaternionArray.average" and "weights" in args:
